@@ -232,6 +232,25 @@ theorem C23_comments_skipped :
     routeNew w_comment_set = false ∧ planPrefix w_block_profile = .profile
       ∧ executesWrite w_block_profile = true := by decide
 
+/-! ### `;` that is text, not a separator (round 6) -/
+
+/-- `CREATE (n:T {t: 'it\'s; x'}) // a; b` + LF + `;` + `/* c; d */`: an escaped delimiter inside
+quoted text, `;` inside the literal and inside both kinds of comment, a comment after the
+closing `;` — one valid statement, routed as a write whatever the layout. -/
+def ex_semis : List (Tok × Sep) :=
+  [(.word ['C','R','E','A','T','E'], .sp), (.sym '(', .none), (.word ['n'], .none), (.sym ':', .none),
+   (.word ['T'], .sp), (.sym '{', .none), (.word ['t'], .none), (.sym ':', .sp),
+   (.strEsc '\'' [['i','t']] ['s',';',' ','x'], .none), (.sym '}', .none), (.sym ')', .sp),
+   (.lineComment [' ','a',';',' ','b'], .none), (.sym ';', .sp),
+   (.blockComment [' ','c',';',' ','d',' '], .none)]
+
+example : valid ex_semis = true := by decide
+example : (Tok.strEsc '\'' [['i','t']] ['s',';',' ','x']).chars
+    = ['\'','i','t','\\','\'','s',';',' ','x','\''] := by decide
+example : wordsOf ex_semis = [kCREATE, ['N'], ['T'], ['T']] ∧ hasWriteClause ex_semis = true := by decide
+example : routeNew (renderL [.lf] ex_semis) = true :=
+  (C23_route_reads_tokens [.lf] ex_semis (by decide)).trans (by decide)
+
 /-! ### Non-vacuity -/
 
 /-- the toy engine satisfies the hypothesis of the dispatch theorems -/
